@@ -454,3 +454,6 @@ Definition conn_op (cs : list peer) (op : sop) : list peer :=
   end.
 
 Definition connected (ops : list sop) : list peer := fold_left conn_op ops [].
+
+(* what the server owes p: the CIDs p currently wants *)
+Definition owed := sview.
